@@ -22,7 +22,7 @@ from superrec2.model.tree_mapping import get_species_mapping
 from superrec2.utils.trees import LowestCommonAncestor
 
 from harness import common, gen, stubtex
-from harness.checks import c12_bridge, c12_cli
+from harness.checks import c12_bridge, c12_cli, c12_json
 
 ID = "C12"
 NOTES = {}  # observations that are not violations of the property (counted into the distribution)
@@ -66,8 +66,8 @@ ASSUMPTIONS = [
     "ordered algorithms on inconsistent leaf orders may have no solution: status 1, nothing written",
 ]
 OPEN = list(c12_cli.OPEN_CLI)
-TRUSTED = TRUSTED + list(c12_bridge.TRUSTED_BRIDGE)
-RULE = RULE + " Bridge ties:" + c12_bridge.RULE_BRIDGE
+TRUSTED = TRUSTED + list(c12_bridge.TRUSTED_BRIDGE) + list(c12_json.TRUSTED_JSON)
+RULE = RULE + " Bridge ties:" + c12_bridge.RULE_BRIDGE + " JSON text tie:" + c12_json.RULE_JSON
 BRIDGE_NOTE = ("the embedding and the evaluator of Model/SolOutput.lean (the objects of Properties/C12Bridge.lean) are tied to "
                "the real to_dict() / from_dict(d).cost() by harness/checks/c12_bridge.py (driver ops c12b_emb, c12b_eval)")
 
@@ -742,6 +742,8 @@ def run(ctx, res):
     c12_cli.run_cli(ctx, res)
     # bridge model (Model/SolOutput.lean): embedding of solver solutions into to_dict(), evaluator on dictionaries
     c12_bridge.run_bridge(ctx, res)
+    # JSON text layer (Model/Json.lean): render = json.dumps byte for byte, parse = json.loads
+    c12_json.run_json(ctx, res)
     for k, v in NOTES.items():
         res.dist[k] += v
     NOTES.clear()
@@ -802,6 +804,8 @@ def replay(ctx, data):
     common.quiet_tqdm()
     if "bridge" in case:
         return c12_bridge.replay_bridge(ctx, data)
+    if "json" in case:
+        return c12_json.replay_json(ctx, data)
     if "subprocess" in case:
         res = common.Result()
         with tempfile.TemporaryDirectory(prefix="c12_") as tmp:
